@@ -34,6 +34,8 @@ type CrashPlan struct {
 	Torn    bool // WAL image = synced prefix + part of the unsynced/next record (torn tail)
 	VotesFirst bool // the victim is sent a round's block parts only after it has seen +2/3 prevotes (so that its
 	// prevote and precommit are queued together)
+	Second  bool // a second crash during recovery / the following heights: SecondQ durable units after the restart
+	SecondQ int
 	Late    bool // crash at the LAST instant with durable prefix p: just before unit p+1 is written (everything the
 	// node did since unit p - handled and gossiped messages included - is lost with the unsynced buffers)
 }
@@ -234,104 +236,199 @@ func CrashCase(c *core.Case, plan CrashPlan, p int) {
 		}
 	}
 	victim.Stop(false)
-	dir := filepath.Join(root, "restarted")
-	if err := WriteWALImage(dir, img); err != nil {
-		run.Inconclusive("cannot write wal image: " + err.Error())
-		return
-	}
-	// restart
+	curDB, curImg := db, img
 	var nn *Node
-	startErr := func() (msg string) {
-		defer func() {
-			if r := recover(); r != nil {
-				msg = fmt.Sprintf("panic: %v", r)
-			}
-		}()
-		tr := &Trace{}
-		tr.add(Ev{Kind: EvRestart})
-		n2, err := BuildNode(plan.Victim, net.Gen, net.Keys[plan.Victim], db, tr, nil, NodeOpts{FileWAL: true, Dir: dir, Cache: cacheFor(plan.Flush)})
-		if err != nil {
-			return "build: " + err.Error()
-		}
-		nn = n2
-		// Which state did the restart find? (used to tell the known recovery gaps apart from anything else)
-		headAfter := nn.BC.CurrentBlock().Height()
-		headAtCrash := uint64(0)
-		if headWrites > 0 {
-			headAtCrash = uint64(headWrites - 1)
-		}
-		st := nn.Store.Load()
-		switch {
-		case headAfter < headAtCrash:
-			cause = "head-rewound-to-last-flushed-state"
-		case st.IsEmpty() || st.LastBlockHeight != headAfter:
-			cause = "head-written-consensus-state-not-saved"
-		case walHasEndHeight(img, int64(headAfter+1)) && nn.BO.LoadBlockMeta(headAfter+1) != nil && nn.BO.LoadSeenCommit(headAfter+1) != nil:
-			cause = "endheight-marked-block-not-applied"
-		case walHasEndHeight(img, int64(headAfter+1)):
-			cause = "endheight-marked-block-not-saved"
-		}
-		run.Distinct("state_after_restart:"+plan.mode(), cause)
-		run.Count("restart_state:"+cause, 1)
-		// clause 2: the stores describe one chain prefix of what had been committed
-		if msg := storesConsistent(nn, agree); msg != "" {
-			c.Violation(key("store-mismatch"), "after restart at a crash point the stores do not describe one chain prefix: "+msg, wit(msg))
-		}
-		if plan.Flush && nn.BC.CurrentBlock().Height() < committedAtP {
-			c.Violation(key("lost-block"), fmt.Sprintf("flush mode: head after restart is %d but block %d had been committed (state saved) before the crash", nn.BC.CurrentBlock().Height(), committedAtP), wit(""))
-		}
-		run.Max("blocks_dropped_after_restart", int64(committedAtP)-int64(nn.BC.CurrentBlock().Height()))
-		if err := n2.Start(); err != nil {
-			return "start: " + err.Error()
-		}
-		return ""
-	}()
-	if startErr != "" {
-		c.Violation(key("start-error"), "node does not restart without manual repair: "+startErr, wit(startErr))
-		return
-	}
-	run.Count("restarts", 1)
-	net.Nodes[plan.Victim] = nn
-	net.observe(nn)
-	target := net.MaxHeight() + 2
-	if target < plan.Heights+1 {
-		target = plan.Heights + 1
-	}
-	res := net.RunSync(target, 200, nil)
+	var res SyncResult
+	signsJudged := 0
 	// clause 3: no vote/proposal conflicting with one published before the crash
-	for _, e := range nn.Tr.Since(0) {
-		var k signKey
-		var bid string
-		switch e.Kind {
-		case EvSignVote:
-			b, err := types.BlockIDFromProto(&e.Vote.BlockID)
-			if err != nil || b == nil {
-				b = &types.BlockID{}
-			}
-			k, bid = signKey{e.Height, e.Round, e.Vote.Type.String()}, BIDKey(*b)
-		case EvSignProp:
-			b, err := types.BlockIDFromProto(&e.Prop.BlockID)
-			if err != nil || b == nil {
-				b = &types.BlockID{}
-			}
-			k, bid = signKey{e.Height, e.Round, "proposal"}, BIDKey(*b)
-		default:
-			continue
-		}
-		run.Count("sign_requests_after_restart", 1)
-		if old, ok := published[k]; ok {
-			if old != bid {
-				sym := "double-sign:"
-				if !walHasOwn(img, k) {
-					// the published message is not even in the surviving log: it was handled (and gossiped) before it was durable
-					sym = "double-sign-of-a-message-published-before-it-was-durable:"
+	signCheck := func(n *Node) {
+		evsN := n.Tr.Since(0)
+		for _, e := range evsN[signsJudgedFor(n, &signsJudged):] {
+			var k signKey
+			var bid string
+			switch e.Kind {
+			case EvSignVote:
+				b, err := types.BlockIDFromProto(&e.Vote.BlockID)
+				if err != nil || b == nil {
+					b = &types.BlockID{}
 				}
-				c.Violation(key(sym+strings.ToLower(strings.TrimPrefix(k.t, "SIGNED_MSG_TYPE_"))), fmt.Sprintf("after the restart the validator signed a %s at %d/%d for %s although it had published one for %s before the crash", k.t, k.h, k.r, short(bid), short(old)), wit(""))
-			} else {
-				run.Count("re_signed_same_content", 1)
+				k, bid = signKey{e.Height, e.Round, e.Vote.Type.String()}, BIDKey(*b)
+			case EvSignProp:
+				b, err := types.BlockIDFromProto(&e.Prop.BlockID)
+				if err != nil || b == nil {
+					b = &types.BlockID{}
+				}
+				k, bid = signKey{e.Height, e.Round, "proposal"}, BIDKey(*b)
+			default:
+				continue
+			}
+			run.Count("sign_requests_after_restart", 1)
+			if old, ok := published[k]; ok {
+				if old != bid {
+					sym := "double-sign:"
+					if !walHasOwn(curImg, k) {
+						// the published message is not even in the surviving log: it was handled (and gossiped) before it was durable
+						sym = "double-sign-of-a-message-published-before-it-was-durable:"
+					}
+					c.Violation(key(sym+strings.ToLower(strings.TrimPrefix(k.t, "SIGNED_MSG_TYPE_"))), fmt.Sprintf("after the restart the validator signed a %s at %d/%d for %s although it had published one for %s before the crash", k.t, k.h, k.r, short(bid), short(old)), wit(""))
+				} else {
+					run.Count("re_signed_same_content", 1)
+				}
 			}
 		}
+		signsJudged = len(evsN)
 	}
+	for stage := 1; ; stage++ {
+		db0 := CopyDB(curDB)
+		dir := filepath.Join(root, fmt.Sprintf("restarted%d", stage))
+		if err := WriteWALImage(dir, curImg); err != nil {
+			run.Inconclusive("cannot write wal image: " + err.Error())
+			return
+		}
+		record := plan.Second && stage == 1
+		startErr := func() (msg string) {
+			defer func() {
+				if r := recover(); r != nil {
+					msg = fmt.Sprintf("panic: %v", r)
+				}
+			}()
+			tr := &Trace{}
+			tr.add(Ev{Kind: EvRestart})
+			n2, err := BuildNode(plan.Victim, net.Gen, net.Keys[plan.Victim], curDB, tr, nil, NodeOpts{FileWAL: true, Dir: dir, Cache: cacheFor(plan.Flush), RecordDB: record})
+			if err != nil {
+				return "build: " + err.Error()
+			}
+			nn = n2
+			signsJudged = 0
+			// Which state did the restart find? (used to tell the known recovery gaps apart from anything else)
+			headAfter := nn.BC.CurrentBlock().Height()
+			headAtCrash := uint64(0)
+			if headWrites > 0 {
+				headAtCrash = uint64(headWrites - 1)
+			}
+			st := nn.Store.Load()
+			cause = "state-consistent-after-restart"
+			switch {
+			case headAfter < headAtCrash:
+				cause = "head-rewound-to-last-flushed-state"
+			case st.IsEmpty() || st.LastBlockHeight != headAfter:
+				cause = "head-written-consensus-state-not-saved"
+			case walHasEndHeight(curImg, int64(headAfter+1)) && nn.BO.LoadBlockMeta(headAfter+1) != nil && nn.BO.LoadSeenCommit(headAfter+1) != nil:
+				cause = "endheight-marked-block-not-applied"
+			case walHasEndHeight(curImg, int64(headAfter+1)):
+				cause = "endheight-marked-block-not-saved"
+			}
+			if stage == 2 {
+				run.Count("second_restarts", 1)
+			}
+			run.Distinct("state_after_restart:"+plan.mode(), cause)
+			run.Count("restart_state:"+cause, 1)
+			// clause 2: the stores describe one chain prefix of what had been committed
+			if msg := storesConsistent(nn, agree); msg != "" {
+				c.Violation(key("store-mismatch"), "after restart at a crash point the stores do not describe one chain prefix: "+msg, wit(msg))
+			}
+			if plan.Flush && nn.BC.CurrentBlock().Height() < committedAtP {
+				c.Violation(key("lost-block"), fmt.Sprintf("flush mode: head after restart is %d but block %d had been committed (state saved) before the crash", nn.BC.CurrentBlock().Height(), committedAtP), wit(""))
+			}
+			run.Max("blocks_dropped_after_restart", int64(committedAtP)-int64(nn.BC.CurrentBlock().Height()))
+			if err := n2.Start(); err != nil {
+				return "start: " + err.Error()
+			}
+			return ""
+		}()
+		if startErr != "" {
+			c.Violation(key("start-error"), "node does not restart without manual repair: "+startErr, wit(startErr))
+			return
+		}
+		run.Count("restarts", 1)
+		net.Nodes[plan.Victim] = nn
+		net.observe(nn)
+		target := net.MaxHeight() + 2
+		if target < plan.Heights+1 {
+			target = plan.Heights + 1
+		}
+		if record {
+			// second crash: during the recovery / the following heights, at the q-th durable unit of the new incarnation
+			q2 := nn.Dur.Len() + plan.SecondQ
+			net.AfterStimulus = func(n *Node) {
+				if n == nn && nn.Dur.Len() >= q2 {
+					net.Halt = true
+				}
+			}
+			net.Halt = nn.Dur.Len() >= q2
+			if !net.Halt {
+				res = net.RunSync(target, 200, nil)
+			}
+			net.AfterStimulus = nil
+			if net.Halt {
+				net.Halt = false
+				signCheck(nn)
+				evs2 := nn.Dur.Snapshot()
+				if q2 > len(evs2) {
+					q2 = len(evs2)
+				}
+				for _, e := range nn.Tr.Since(0) {
+					if e.Kind == EvRecv && e.Own && e.DurIdx <= q2 {
+						if k, bid, ok := ownSignKey(e.Msg); ok {
+							published[k] = bid
+						}
+					}
+					if e.Kind == EvSaveBlock && e.DurIdx >= q2 {
+						if d, ok := agree.Decided[e.Height]; ok && d.node == nn.Idx {
+							delete(agree.Decided, e.Height)
+						}
+					}
+				}
+				walData2, _ := os.ReadFile(nn.WAL.path)
+				size2 := int64(len(curImg))
+				for _, d := range evs2[:q2] {
+					if d.Kind == "walsync" && d.WalSize >= 0 {
+						size2 = d.WalSize
+					}
+					if d.Kind == "db" {
+						for _, o := range d.Ops {
+							if !o.Del && string(o.K) == "LastBlock" {
+								headWrites++
+							}
+							if !o.Del && strings.HasPrefix(string(o.K), "ConsensusState") && len(o.K) == len("ConsensusState")+8 {
+								var h uint64
+								for _, bb := range o.K[len("ConsensusState"):] {
+									h = h<<8 | uint64(bb)
+								}
+								if h > committedAtP {
+									committedAtP = h
+								}
+							}
+						}
+					}
+				}
+				if size2 > int64(len(walData2)) {
+					size2 = int64(len(walData2))
+				}
+				curImg = walData2[:size2]
+				curDB = db0
+				for _, d := range evs2[:q2] {
+					if d.Kind == "db" {
+						for _, o := range d.Ops {
+							if o.Del {
+								curDB.Delete(o.K)
+							} else {
+								curDB.Put(o.K, o.V)
+							}
+						}
+					}
+				}
+				window = fmt.Sprintf("%s; second crash after %d units of the restarted node", window, plan.SecondQ)
+				nn.Stop(false)
+				continue
+			}
+			run.Count("second_points_beyond_end", 1)
+		} else {
+			res = net.RunSync(target, 200, nil)
+		}
+		break
+	}
+	signCheck(nn)
 	for _, a := range al.List {
 		switch {
 		case a.Prop == "C01":
@@ -351,6 +448,13 @@ func CrashCase(c *core.Case, plan CrashPlan, p int) {
 	if run.Counter("restarts") <= 2 {
 		run.Sample(map[string]interface{}{"plan": plan.Name, "crash_point": p, "window": window, "committed_before_crash": committedAtP, "final": net.Heights()})
 	}
+}
+
+func signsJudgedFor(n *Node, judged *int) int {
+	if *judged > n.Tr.Len() {
+		*judged = 0
+	}
+	return *judged
 }
 
 func short(k string) string {
